@@ -103,6 +103,9 @@ func capVol(v, cap int32) int32 {
 
 func genUUs(t *rapid.T, o genOpts, create bool, cap int32) []UU {
 	n := rapid.IntRange(1, 3).Draw(t, "nUU")
+	if rapid.IntRange(0, 11).Draw(t, "noUsageAtAll") == 0 {
+		n = 0 // a request that carries no multipleUnitUsage at all
+	}
 	var out []UU
 	used := map[int32]bool{}
 	for i := 0; i < n; i++ {
